@@ -2,6 +2,6 @@
 # dev helper: apply a seeded patch to /repo, run a registered check, undo the patch
 S=$1; P=$2; shift 2
 cd /repo && git apply /verif/seeded/$S/patch.diff || exit 2
-cd /verif && ./check $P "$@" > /tmp/try_$S_$P.out 2>&1; rc=$?
+cd /verif && KV_EVIDENCE_DIR=/verif/work/seed-evidence KV_REPLAY_DIR=/verif/work/seed-replay ./check $P "$@" > /tmp/try_$S_$P.out 2>&1; rc=$?
 git -C /repo checkout -- .
 echo "== seed $S check $P exit=$rc"; grep -E "^(VIOLATION|INCONCLUSIVE|  signature)" /tmp/try_$S_$P.out | cut -c1-330 | head -6
